@@ -69,13 +69,23 @@ CLAIMS = {
                      "Not proved, tied by differential runs in the check: the Rust "
                      "tokenizer agrees with that interpreter (the reference_leg comparison interpreter-vs-interpreter is now "
                      "redundant with the theorem and kept as a regression test). Tree-builder half (that splitting a character token does not change the "
-                     "tree), over the tree-builder model of C02: proved for the 'text' insertion mode only "
+                     "tree), over the tree-builder model of C02, PARTIAL: per-token split theorems for the 'text' insertion mode "
                      "(C03_tree_text_mode_split_partial: one character token or two give the same answers, states equal up to "
                      "the event log - leading-LF dropping included - and the same abstract DOM, because DomSpec merges adjacent "
-                     "text: C03_tree_append_text_merges) plus the invariance of the pending-table-text white-space test "
-                     "(C03_tree_pending_table_text_test); NOT proved: the other mode groups (in body and its delegators, table "
-                     "text flush, leading-white-space splitting) and the frame property needed for whole token lists - see the "
-                     "header of coq/Tree/TreeSplit.v. Oracle: metamorphic chunking / script-injection "
+                     "text: C03_tree_append_text_merges) and for 'in body' with its delegators 'in caption' / 'in template' "
+                     "(C03_tree_body_mode_split_partial: the second reconstruct-the-active-formatting-elements is a no-op, "
+                     "frameset-ok is the OR over the pieces); the frame property - the event log of the model is write-only, one "
+                     "lemma per definition of the model (C03_tree_event_log_is_write_only, C03_tree_token_line_irrelevant); and on "
+                     "top of them the statement for whole token lists (C03_tree_split_run_partial: a token list and the same list "
+                     "with character tokens cut into pieces end in states with the same core and the same DOM), RESTRICTED by the "
+                     "explicit side condition TreeSplitRun.splits_cov that every cut happens in a covered state (foster parenting "
+                     "off, current node not a template element, mode 'text' or 'in body' / 'in caption' / 'in template' with an "
+                     "HTML adjusted current node); the side condition has a sound boolean checker and a computed example "
+                     "(C03_tree_split_side_condition_checker_sound, C03_tree_split_example). Also the invariance of the "
+                     "pending-table-text white-space test (C03_tree_pending_table_text_test). NOT proved: cuts in the table-text "
+                     "queue and its flush, in the modes that split off leading white space (SplitWhitespace), in 'in cell', in "
+                     "foreign content, with foster parenting on or a template element as the current node - see the headers of "
+                     "coq/Tree/TreeSplit.v and TreeSplitRun.v. Oracle: metamorphic chunking / script-injection "
                      "runs on the implementation (tokens, errors, lines, final tree).",
                 note=TOK_NOTE, tech="generic Coq suspend/resume proof over regenerated TokIR table + reference/chunked/impl differential + chunking oracle"),
     "C04": dict(cat="proof", ref="DESIGN.md section 5 C04",
